@@ -48,9 +48,16 @@ def cfg_for(ctx, name, consts, invariants=INV, **kw):
 
 
 def run(ctx):
-    # ---- the specification, exhaustively
-    big = [{"N": 3, "K": 2, "M": 1, "Confs": ALL}] if ctx.quick else \
-          [{"N": 3, "K": 2, "M": 3, "Confs": DEFAULT}, {"N": 3, "K": 2, "M": 2, "Confs": ALL}]
+    # ---- which design does the code follow?  (where the clock is read is not part of the property)
+    probed = rt.probe_design()
+    outside = bool(probed)                 # undetermined -> the pinned design; the replay will then diverge
+    ctx.note("design_probe", {"clock_read_before_lock_acquisition": probed, "ReadOutsideLock": outside})
+    # ---- the specification, exhaustively, for BOTH designs (the property must hold whichever the code follows)
+    big = [{"N": 3, "K": 2, "M": 1, "Confs": ALL, "ReadOutsideLock": outside},
+           {"N": 3, "K": 2, "M": 1, "Confs": DEFAULT, "ReadOutsideLock": not outside}] if ctx.quick else \
+          [{"N": 3, "K": 2, "M": 3 if not outside else 2, "Confs": DEFAULT, "ReadOutsideLock": outside},
+           {"N": 3, "K": 2, "M": 2 if not outside else 1, "Confs": ALL, "ReadOutsideLock": outside},
+           {"N": 3, "K": 2, "M": 2, "Confs": DEFAULT, "ReadOutsideLock": not outside}]
     reached = set()
     for consts in big:
         res = tlc.check_model("Timestamps", cfg_for(ctx, "ts_big", consts, next="NextW"), ctx.scratch, coverage=True,
@@ -65,7 +72,8 @@ def run(ctx):
         zero = [a for a in ("Acquire", "ReadClock", "Compute", "Release") if a not in cov or cov[a][1] == 0]
         if zero:
             raise tlc.MachineryError("actions never taken: %s (coverage keys %s)" % (zero, sorted(cov)))
-        reached.update(w for w in WITNESSES if cov.get("W_" + w, (0, 0))[1] > 0)
+        if consts["ReadOutsideLock"] == outside:
+            reached.update(w for w in WITNESSES if cov.get("W_" + w, (0, 0))[1] > 0)
     if reached != set(WITNESSES):
         raise tlc.MachineryError("vacuity witnesses not reachable: %s" % sorted(set(WITNESSES) - reached))
     ctx.note("vacuity_witnesses_reached", len(WITNESSES))
@@ -74,6 +82,12 @@ def run(ctx):
     small = [{"N": 2, "K": 2, "M": 2, "Confs": EAGER}, {"N": 3, "K": 1, "M": 2, "Confs": ALL}] if ctx.quick else \
             [{"N": 2, "K": 2, "M": 3, "Confs": ALL}, {"N": 3, "K": 1, "M": 3, "Confs": ALL},
              {"N": 3, "K": 2, "M": 1, "Confs": EAGER}]
+    if outside:            # more interleavings when the reading is not serialized: smaller clock domain, same threads
+        small = [{"N": 2, "K": 2, "M": 1, "Confs": EAGER}, {"N": 3, "K": 1, "M": 2, "Confs": ALL}] if ctx.quick else \
+                [{"N": 2, "K": 2, "M": 2, "Confs": ALL}, {"N": 3, "K": 1, "M": 3, "Confs": ALL},
+                 {"N": 3, "K": 2, "M": 1, "Confs": DEFAULT}]
+    for c in small:
+        c["ReadOutsideLock"] = outside
     replayed = blocked_total = diverged = 0
     all_covered = True
     seen = set()
@@ -133,6 +147,7 @@ def run(ctx):
 
     # ---- code -> spec: random line-level schedules
     tconsts = {"N": 3, "K": 2, "M": 3, "Confs": ALL} if ctx.quick else {"N": 3, "K": 3, "M": 5, "Confs": ALL}
+    tconsts["ReadOutsideLock"] = outside
     n_tr = 200 if ctx.quick else 3000
     traces, rets = [], []
     for _ in range(n_tr):
@@ -196,6 +211,8 @@ def run(ctx):
                      "clock readings are not monotone (the clock stood still or jumped backwards); distinct by lock order "
                      "and clock readings")
     ctx.assumptions += [
+        "where the clock is read (under the lock or before requesting it) is a design choice the property leaves open: "
+        "both designs are model checked, a probe on the real code selects the one it is bound to",
         "pre-emption at source-line granularity inside __call__ / _next_timestamp and at lock operations",
         "clock readings are microsecond integers in 0..M (M <= 5); last starts at 0",
         "generator configurations: warn_on_drift True/False x (warning_threshold, warning_interval) = (0, 0) / (1, 1)",
